@@ -5,6 +5,7 @@
 #include "nodes/variable/variable.h"
 #include "nodes/variable/array.h"
 #include "nodes/functions/procedure.h"
+#include "nodes/loop/control.h"
 
 ProcedureNode::ProcedureNode(
     const Token &token,
@@ -130,7 +131,13 @@ std::unique_ptr<NodeResult> CallNode::evaluate(PSC::Context &ctx) {
     }
 
     ctx.switchToken = &token;
-    procedure->run(*procedureCtx);
+    try {
+        procedure->run(*procedureCtx);
+    } catch (BreakErrSignal &e) {
+        throw PSC::InvalidUsageError(e.token, *procedureCtx, "'BREAK' statement");
+    } catch (ContinueErrSignal &e) {
+        throw PSC::InvalidUsageError(e.token, *procedureCtx, "'CONTINUE' statement");
+    }
     ctx.switchToken = nullptr;
 
     return std::make_unique<NodeResult>(nullptr, PSC::DataType::NONE);
